@@ -426,6 +426,40 @@ fn parse_gfa(text: &str) -> (Vec<Value>, Vec<Value>, Vec<String>, usize) {
 }
 
 /// `export` event (C20): GFA (three writers) and JSON renderings of a finished graph.
+/// DOT text -> (node lines [id, len], edge lines [from, to, colour], number of lines that are neither; the frame counts as well-formed)
+fn parse_dot(t: &str) -> (Vec<Value>, Vec<Value>, usize) {
+    let mut nodes = vec![];
+    let mut edges = vec![];
+    let mut other = 0usize;
+    let lines: Vec<&str> = t.lines().collect();
+    for (i, ln) in lines.iter().enumerate() {
+        if (i == 0 && *ln == "digraph {") || (i + 1 == lines.len() && *ln == "}") {
+            continue;
+        }
+        let num = |s: &str| s.strip_prefix('n').and_then(|x| x.parse::<i64>().ok());
+        let w: Vec<&str> = ln.split(' ').collect();
+        if w.len() == 4 && w[1] == "->" {
+            let col = w[3].strip_prefix("[color=").and_then(|x| x.strip_suffix(']'));
+            match (num(w[0]), num(w[2]), col) {
+                (Some(a), Some(b), Some(c)) => edges.push(json!([a, b, c])),
+                _ => other += 1,
+            }
+        } else if let Some(rest) = ln.strip_suffix("  x\",style=filled]") {
+            // n{id} [label="id:{id} len:{len}  x",style=filled]
+            let parts: Vec<&str> = rest.split(' ').collect();
+            let ok = parts.len() == 3 && parts[1].starts_with("[label=\"id:") && parts[2].starts_with("len:");
+            match (ok, num(parts.get(0).copied().unwrap_or("")), parts.get(1).and_then(|x| x.strip_prefix("[label=\"id:")).and_then(|x| x.parse::<i64>().ok()),
+                   parts.get(2).and_then(|x| x.strip_prefix("len:")).and_then(|x| x.parse::<i64>().ok())) {
+                (true, Some(a), Some(b), Some(l)) if a == b => nodes.push(json!([a, l])),
+                _ => other += 1,
+            }
+        } else {
+            other += 1;
+        }
+    }
+    (nodes, edges, other)
+}
+
 pub fn ev_export<K: Kmer + Send + Sync>(sink: &Sink, inp: &GInput, nodes: &[NodeP], tmpdir: &str) {
     let desc = json!({"op":"export","K":inp.k,"st":inp.stranded,"reads":inp.reads,"nodes":nodes_json(nodes),"fam":inp.fam});
     let case = sink.begin_case(&desc);
@@ -442,19 +476,27 @@ pub fn ev_export<K: Kmer + Send + Sync>(sink: &Sink, inp: &GInput, nodes: &[Node
         let gfa_tags = std::fs::read_to_string(&p2).unwrap_or_default();
         let _ = std::fs::remove_file(&p1);
         let _ = std::fs::remove_file(&p2);
+        let p3 = format!("{}/d-{}.dot", tmpdir, std::process::id());
+        g.to_dot(&p3, &|_d: &D| "x".to_string());
+        let dot = std::fs::read_to_string(&p3).unwrap_or_default();
+        let _ = std::fs::remove_file(&p3);
         let mut jb: Vec<u8> = Vec::new();
         g.to_json_rest(|d: &D| json!(d), &mut jb, None);
         let jtxt = String::from_utf8_lossy(&jb).to_string();
         let mut jb2: Vec<u8> = Vec::new();
         g.to_json_rest(|d: &D| json!(d), &mut jb2, Some(json!({"extra": 7, "name": "x"})));
         let jtxt2 = String::from_utf8_lossy(&jb2).to_string();
-        (gfa, gfa_file, gfa_tags, jtxt, jtxt2)
+        (gfa, gfa_file, gfa_tags, jtxt, jtxt2, dot)
     });
     sink.end_case();
     let mut e = desc;
     e["case"] = json!(case);
     match res {
-        Ok((gfa, gfa_file, gfa_tags, jtxt, jtxt2)) => {
+        Ok((gfa, gfa_file, gfa_tags, jtxt, jtxt2, dot)) => {
+            let (dn, de, dother) = parse_dot(&dot);
+            e["dot_nodes"] = json!(dn);
+            e["dot_edges"] = json!(de);
+            e["dot_other_lines"] = json!(dother);
             let (segs, links, _, other) = parse_gfa(&gfa);
             let (segs_t, links_t, tags, other_t) = parse_gfa(&gfa_tags);
             e["segs"] = json!(segs);
